@@ -27,9 +27,10 @@ RULE = ("port trees: 1..24 names per table over {a b c} + digits (lengths 1..3, 
         "components, with and without '#N', as leaves and as sub-trees at every depth (a#2/b#3/, a#2/k#2:i, x/y/, u/v/w/; "
         "a '#'-free table holding one takes the linear scan too); "
         "addresses derived from a randomly chosen port path: exact, one character appended / removed / changed, "
-        "index N-1 / N / N+1 / leading zeros, '/' dropped or doubled, leading '/' dropped, a byte 0x7f / 0x80 / 0xe9 / 0xff changed in / inserted / appended / as a whole component (8 %), plus random short "
+        "index N-1 / N / N+1 / leading zeros / 10..20 digits (a valid index zero-padded, valid index + j*2^32, + j*2^64, 2^31 / 2^32 / 2^63 / 2^64 boundaries; 22 % of the enumerated components), '/' dropped or doubled, leading '/' dropped, a byte 0x7f / 0x80 / 0xe9 / 0xff changed in / inserted / appended / as a whole component (8 %), plus random short "
         "addresses; type strings equal to an alternative, a proper extension of one (the text leaves that verdict open: the two runs must then agree), with the first tag changed, with the last tag dropped, or unrelated. "
-        "Each case is dispatched twice (with and without location buffer).  Non-trivial = the table of the "
+        "Each case is dispatched twice (with and without location buffer); in a third of the cases the location buffer is a reused one "
+        "that still holds a non-empty string (another address of the tree, a text around one, '/', arbitrary non-NUL bytes, 40..200 bytes) when it is handed to the root dispatch.  Non-trivial = the table of the "
         "addressed port has >= 3 ports and at least one callback was invoked or a near-miss address was used.")
 TRUSTED = ["harness/h_C04.cpp: Ports subclass filling the public `ports` vector and calling refreshMagic(); callbacks "
            "that record (port, msg offset, d.obj, d.loc, d.port) and re-dispatch like rRecurCb/rRecursCb (index at the '#', "
@@ -399,7 +400,23 @@ def gen_tree(rng, depth, counter, maxdepth):
         ports.append((nm, gen_tree(rng, depth + 1, counter, maxdepth) if isub else None))
     return Tab(tid, rng.random() < 0.25, ports)
 
-def spell(rng, name):
+def long_index(rng, n):
+    """an index of 10..20 digits: a valid index written with leading zeros (must match), or a
+    value >= 2^32 that is congruent to a valid index modulo 2^32 / 2^64 (must not: an index
+    read into a 32-bit or 64-bit unsigned must not wrap into the range), or a boundary"""
+    k = rng.randint(0, max(0, n - 1))
+    r = rng.random()
+    if r < 0.25:
+        return str(rng.choice([k, k, n - 1, n])).encode().rjust(rng.randint(10, 20), b"0"), "index-zero-padded-10..20-digits"
+    if r < 0.55:
+        return str((1 << 32) * rng.choice([1, 1, 1, 2, 3, 1 << 8, 1 << 16, (1 << 31) - 1]) + k).encode(), "index-valid+j*2^32"
+    if r < 0.75:
+        return str((1 << 64) * rng.choice([1, 1, 2, 10]) + k).encode(), "index-valid+j*2^64"
+    if r < 0.85:
+        return str(rng.choice([(1 << 32) + n, (1 << 32) - 1, (1 << 31) + k, (1 << 64) - 1, (1 << 63) + k])).encode(), "index-boundary-2^31/2^32/2^63/2^64"
+    return (b"0" * rng.randint(1, 8) + str((1 << 32) + k).encode()), "index-zero-padded-valid+2^32"
+
+def spell(rng, name, dist=None):
     """text of an address component for this port name + the kind of index chosen"""
     ast = parse_name(name)
     out = b""
@@ -412,16 +429,38 @@ def spell(rng, name):
             s = str(max(0, x)).encode()
             if rng.random() < 0.15:
                 s = b"0" + s
+            if rng.random() < 0.22:
+                s, kk = long_index(rng, n)
+                if dist is not None:
+                    dist[kk] = dist.get(kk, 0) + 1
             out += s
     return out + (b"/" if ast[1] else b""), ast
 
-def gen_address(rng, t):
+def gen_stale(rng, t):
+    """what a location buffer that is not fresh holds when it is handed to a root dispatch: the
+    address of another message, a text built around one, "/" (what a dispatch leaves behind),
+    arbitrary non-NUL bytes, a long string"""
+    r = rng.random()
+    if r < 0.35:
+        s = gen_address(rng, t)[0]
+    elif r < 0.5:
+        s = rng.choice([b"reply to ", b"/some/earlier/address", b"scratch", b"x"]) + (gen_address(rng, t)[0] if rng.random() < 0.5 else b"")
+    elif r < 0.58:
+        s = b"/"
+    elif r < 0.8:
+        s = bytes(rng.choice(b"abc/#:1 ~" + HIGH) for _ in range(rng.randint(1, 12)))
+    else:
+        s = bytes(rng.choice(b"abcdefgh/") for _ in range(rng.randint(40, 200)))
+    s = s.replace(b"\0", b"")
+    return s or b"/"
+
+def gen_address(rng, t, dist=None):
     text = b"/"
     tb = t
     ast = None
     while True:
         name, sub = rng.choice(tb.ports)
-        s, ast = spell(rng, name)
+        s, ast = spell(rng, name, dist)
         text += s
         if sub and rng.random() < 0.85:
             tb = sub
@@ -552,9 +591,14 @@ def gen(rng, tier, dist):
         names_of = {tb.tid: tb for tb in walk(t)}
         seen = set()
         for _ in range(per):
-            addr, ty, kind = gen_address(rng, t)
+            addr, ty, kind = gen_address(rng, t, dist)
             if (addr, ty) in seen or not P5.addr_ok(addr):
                 continue
+            # a third of the root dispatches get a location buffer that is not fresh
+            stale = gen_stale(rng, t) if rng.random() < 0.33 else None
+            if stale is not None:
+                kk = "loc-buffer-reused:" + ("holds-'/'" if stale == b"/" else "holds-an-address" if stale[:1] == b"/" else "holds-other-text")
+                dist[kk] = dist.get(kk, 0) + 1
             if types_free(t, ty):
                 dist["types-extension-of-an-alternative"] = dist.get("types-extension-of-an-alternative", 0) + 1
             sq, fr = expected(t, addr, ty)
@@ -569,7 +613,7 @@ def gen(rng, tier, dist):
                 dist["address-with-byte>=0x7f"] = dist.get("address-with-byte>=0x7f", 0) + 1
             seen.add((addr, ty))
             dist["address-" + kind] = dist.get("address-" + kind, 0) + 1
-            out.append("disp %s %s %s %s" % (s, hx(addr), hx(ty), kind))
+            out.append("disp %s %s %s %s %s" % (s, hx(addr), hx(ty), kind, hx(stale) if stale else "-"))
     return out
 
 TECHNIQUE = ("Coq proofs about a hand-written model of Ports::dispatch (linear scan, hashed lookup, tree descent) built on "
